@@ -31,7 +31,7 @@ func init() {
 		Level:        "exploration",
 		Race:         true,
 		FreshProcess: true,
-		Rule: "built with -race; every case runs in a fresh process (new map hash seeds). Inputs: synthetic modules with 20-200 entries in every translator index (types, comdats, globals, attribute groups, named and numbered metadata), the atom catalogue, llvm-stress programs and rejected inputs (undefined / duplicate names). Per (input, process): R sequential parses, each entry point (ParseFile, Parse through 1-byte and PRNG-chunk readers, ParseBytes, ParseString), parses after unrelated parse/print activity, and G goroutines parsing different inputs at once must all give the same accept/reject outcome, the same String() and the same structural digest; the digest is also compared across processes; exported singletons (types.*, constant.True/False/None, metadata.Null) are snapshotted before and after; any race report is a violation. The Visit hooks record the key order of each translator map loop. " +
+		Rule: "built with -race; every case runs in a fresh process (new map hash seeds). Inputs: synthetic modules with 20-200 entries in every translator index (types, comdats, globals, attribute groups, named and numbered metadata), the atom catalogue, llvm-stress programs and rejected inputs (undefined / duplicate names). Per (input, process): R sequential parses, each entry point (ParseFile, Parse through 1-byte and PRNG-chunk readers, through readers that deliver their last bytes together with io.EOF, ParseBytes, ParseString), parses after unrelated parse/print activity, and G goroutines parsing different inputs at once must all give the same accept/reject outcome, the same String() and the same structural digest; the digest is also compared across processes; exported singletons (types.*, constant.True/False/None, metadata.Null) are snapshotted before and after; any race report is a violation. The Visit hooks record the key order of each translator map loop. " +
 			"non-trivial = an (input, process) pair whose map loops were observed in at least two different orders within the process (order diversity witnessed), or a rejected input; distinct by (input, process)",
 		Gen:           genC12,
 		Post:          postC12,
@@ -215,6 +215,11 @@ type chunkReader struct {
 	data []byte
 	rng  *rand.Rand
 	one  bool
+	// eofWithData makes the last Read return its bytes together with io.EOF, as
+	// the io.Reader contract allows (gzip readers, HTTP bodies, iotest.DataErrReader)
+	eofWithData bool
+	// whole delivers everything in one Read (with eofWithData: data and EOF at once)
+	whole bool
 }
 
 func (c *chunkReader) Read(p []byte) (int, error) {
@@ -222,7 +227,9 @@ func (c *chunkReader) Read(p []byte) (int, error) {
 		return 0, io.EOF
 	}
 	n := 1
-	if !c.one {
+	if c.whole {
+		n = len(c.data)
+	} else if !c.one {
 		n = 1 + c.rng.Intn(97)
 	}
 	if n > len(c.data) {
@@ -233,6 +240,9 @@ func (c *chunkReader) Read(p []byte) (int, error) {
 	}
 	copy(p, c.data[:n])
 	c.data = c.data[n:]
+	if c.eofWithData && len(c.data) == 0 {
+		return n, io.EOF
+	}
 	return n, nil
 }
 
@@ -337,7 +347,7 @@ func c12Case(r *fw.Rec, proc int, s corpus.Source, companions []corpus.Source) {
 		}
 		r.Tally("entry_points", "ParseFile")
 	}
-	for _, ep := range []string{"Parse/1-byte-reader", "Parse/chunk-reader", "Parse/bytes.Reader", "ParseBytes"} {
+	for _, ep := range []string{"Parse/1-byte-reader", "Parse/chunk-reader", "Parse/bytes.Reader", "ParseBytes", "Parse/chunk-reader-eof-with-last-data", "Parse/one-read-data-and-eof"} {
 		var o c12Outcome
 		switch ep {
 		case "Parse/1-byte-reader":
@@ -348,6 +358,14 @@ func c12Case(r *fw.Rec, proc int, s corpus.Source, companions []corpus.Source) {
 			o = c12Parse(func() (*ir.Module, error) { return asm.Parse(s.ID, bytes.NewReader([]byte(text))) })
 		case "ParseBytes":
 			o = c12Parse(func() (*ir.Module, error) { return asm.ParseBytes(s.ID, []byte(text)) })
+		case "Parse/chunk-reader-eof-with-last-data":
+			o = c12Parse(func() (*ir.Module, error) {
+				return asm.Parse(s.ID, &chunkReader{data: []byte(text), rng: rng, eofWithData: true})
+			})
+		case "Parse/one-read-data-and-eof":
+			o = c12Parse(func() (*ir.Module, error) {
+				return asm.Parse(s.ID, &chunkReader{data: []byte(text), whole: true, eofWithData: true})
+			})
 		}
 		r.Eval(1)
 		if o.summary() != ref.summary() {
